@@ -43,7 +43,7 @@ MC = [
     ("MC_KeyKeeper", "KeyKeeper.cfg", None,
      ["GetStatus", "UpdRuleId", "SetRules", "NeedKey", "FetchLocal", "UpdateKeyLocal", "Acquire", "StoreCreateTmp", "StoreWriteTmp",
       "StoreRename", "ReadBack", "Attest", "UpdateKeyMem", "UpdChannelState", "UpdPolicy", "ClearKey", "Sleep", "Reconfigure",
-      "Rotate", "Crash", "Damage", "Restart"]),
+      "Rotate", "Relatch", "Crash", "Damage", "Restart"]),
     ("MC_KeyKeeper", "KeyKeeper_live.cfg", None, ["Attest", "Crash", "Restart"]),
     # rule documents with the empty id and documents that change their mode under the same id
     ("MC_KeyKeeper", "KeyKeeper_rules.cfg", None, ["UpdRuleId", "SetRules", "Reconfigure"]),
@@ -52,6 +52,9 @@ MC = [
     ("MC_KeyKeeper", "KeyKeeper_sameid.cfg", "Converged", None),
     # ... and the design in which they are replaced when id or mode change breaks it when only the content changes
     ("MC_KeyKeeper", "KeyKeeper_samecontent.cfg", "Converged", None),
+    # design variants: the state stored before the key step; the key in memory kept when the new one has a lower incarnation
+    ("MC_KeyKeeper", "KeyKeeper_stateearly.cfg", "Converged", None),
+    ("MC_KeyKeeper", "KeyKeeper_incarnation.cfg", "Converged", None),
 ]
 
 
@@ -155,6 +158,10 @@ def classify(kind, trace_rows, verdict):
     polls = [r for r in trace_rows if r["e"] == "poll"]
     k = verdict.get("firstBad", 0)
     cls = "other"
+    if broken and set(broken) <= {"Policy", "PolicyInForce"}:
+        cls = "interception-not-applied-for-state-in-force"
+    elif broken and set(broken) <= {"Key", "KeyValue"}:
+        cls = "key-in-use-differs-from-latched"
     if 0 < k <= len(polls):
         r = polls[k - 1]
         for ep in kk.EPS:
